@@ -553,6 +553,148 @@ def private_stream(ctx):
             ctx.disagree("file-mode", dict(case, request=mode_reqs[i]), model[i], got)
 
 
+class KeyProxy:
+    """stands in for the cryptography private key inside a paramiko key object and records the
+    `private_bytes` call paramiko makes"""
+
+    def __init__(self, target, log):
+        self.__dict__["_t"] = target
+        self.__dict__["_log"] = log
+
+    def __getattr__(self, name):
+        return getattr(self._t, name)
+
+    def private_bytes(self, encoding, format, encryption_algorithm):
+        real = self._t.private_bytes      # AttributeError for public keys, as without the proxy
+        enc = type(encryption_algorithm).__name__
+        if hasattr(encryption_algorithm, "password"):
+            enc = "Best:" + hx(bytes(encryption_algorithm.password)) if enc == "BestAvailableEncryption" else enc
+        def nm(x):
+            return getattr(x, "name", None) or str(x).split(".")[-1]
+        self._log.append("%s %s %s" % (nm(encoding), nm(format), enc))
+        return real(encoding, format, encryption_algorithm)
+
+
+def pass_tok(p):
+    if p is None:
+        return "none"
+    if isinstance(p, bytes):
+        return "b:" + hx(p)
+    if isinstance(p, str):
+        return "s:" + hx(p.encode("utf-8"))
+    return "other"
+
+
+def write_stream(ctx):
+    """the write path: which serialisation call is made for which passphrase, and what is left on disk"""
+    import paramiko
+
+    rng = ctx.rng
+    rsa_ck = lk.gen_crypto_key("rsa", 1024)
+    ec_ck = lk.gen_crypto_key("ec", 384)
+
+    def make(kind, priv, log):
+        if kind == "rsa":
+            return paramiko.RSAKey(key=KeyProxy(rsa_ck if priv else rsa_ck.public_key(), log))
+        if kind == "ec":
+            k = paramiko.ECDSAKey(vals=(ec_ck, ec_ck.public_key()))
+            k.signing_key = KeyProxy(ec_ck, log) if priv else None
+            return k
+        k = paramiko.Ed25519Key.from_private_key_file(lk.support("ed25519.key"))
+        return k if priv else paramiko.Ed25519Key(data=k.asbytes())
+
+    passes = [None, "", b"", "pw", b"pw", "pässwörd-密码", b"\xff\xfe\x00", 5, 1.5, ["pw"], " ", "x" * 300, b"\n"]
+    tmp = tempfile.mkdtemp(prefix="pv-c36w-")
+    reqs, cases = [], []
+    try:
+        n = 0
+        for kind in ("rsa", "ec", "ed"):
+            for priv in (True, False):
+                for p in passes:
+                    n += 1
+                    # --- file object
+                    log = []
+                    key = make(kind, priv, log)
+                    buf = io.StringIO()
+                    try:
+                        key.write_private_key(buf, password=p)
+                        impl = "ok " + (log[-1] if log else "NO-CALL")
+                    except Exception as e:  # noqa: BLE001
+                        impl = "exc " + type(e).__name__
+                    reqs.append("write %s %d %s" % (kind, priv, pass_tok(p)))
+                    case = {"class": kind, "has_private": priv, "passphrase": repr(p)}
+                    cases.append((case, impl))
+                    text = buf.getvalue()
+                    ctx.case(("write", kind, priv, repr(p)), impl.startswith("ok"))
+                    ctx.dist("write-call:" + impl.split(":")[0])
+                    # oracle: a passphrase never yields an unencrypted file; None never an encrypted one
+                    if impl.startswith("ok"):
+                        encrypted = "ENCRYPTED" in text
+                        if p is not None and not encrypted:
+                            ctx.fail("passphrase-ignored:" + kind, case, "file written unencrypted although a passphrase was given")
+                        if p is None and encrypted:
+                            ctx.fail("encrypted-without-passphrase:" + kind, case, "file is encrypted although no passphrase was given")
+                        if p is not None:
+                            want = p if isinstance(p, bytes) else p.encode("utf-8")
+                            if not impl.endswith("Best:" + hx(want)):
+                                ctx.fail("passphrase-bytes:" + kind, case, "serialised with %s, expected the bytes %s" % (impl, want.hex()))
+                            other_form = want.decode("utf-8") if isinstance(p, bytes) and _is_utf8(want) else want
+                            try:
+                                back = lk.key_class(kind).from_private_key(io.StringIO(text), password=other_form)
+                                ref = paramiko.RSAKey(key=rsa_ck) if kind == "rsa" else paramiko.ECDSAKey(vals=(ec_ck, ec_ck.public_key()))
+                                if back != ref or not back.can_sign():
+                                    ctx.fail("private-roundtrip:" + kind, case, "loaded key differs")
+                            except Exception as e:  # noqa: BLE001
+                                ctx.fail("private-roundtrip:%s:%s" % (kind, exc_site(e)), case,
+                                         "written with %r, not loadable with %r: %r" % (p, other_form, e))
+                    # --- file on disk
+                    um = rng.choice([0o022, 0o077, 0o000, 0o027, 0o277, 0o007])
+                    pre = rng.choice([None, None, 0o644, 0o600, 0o666])
+                    path = os.path.join(tmp, "w%d" % n)
+                    if pre is not None:
+                        with open(path, "w") as f:
+                            f.write("old")
+                        os.chmod(path, pre)
+                    log = []
+                    key = make(kind, priv, log)
+                    old = os.umask(um)
+                    try:
+                        key.write_private_key_file(path, password=p)
+                        impl = "ok " + (log[-1] if log else "NO-CALL")
+                    except Exception as e:  # noqa: BLE001
+                        impl = "exc " + type(e).__name__
+                    finally:
+                        os.umask(old)
+                    if os.path.exists(path):
+                        st = os.stat(path)
+                        size = st.st_size
+                        state = "%o %s" % (stat.S_IMODE(st.st_mode), "key" if size > 3 else "nokey")
+                        if kind == "ed" and pre is not None:
+                            state = "%o nokey" % stat.S_IMODE(st.st_mode)
+                    else:
+                        state = "absent"
+                    reqs.append("writefile %s %d %s %s %o" % (kind, priv, pass_tok(p), "none" if pre is None else "%o" % pre, um))
+                    case = dict(case, umask=oct(um), pre_existing_mode=None if pre is None else oct(pre))
+                    cases.append((case, impl + " | " + state))
+                    ctx.case(("writefile", kind, priv, repr(p), um, pre), True)
+                    if pre is None and state != "absent" and int(state.split()[0], 8) & 0o077:
+                        ctx.fail("file-mode:new", case, "target left with mode " + state)
+    finally:
+        shutil.rmtree(tmp, ignore_errors=True)
+    model = ctx.driver("C36", reqs)
+    for i, (case, impl) in enumerate(cases):
+        if model is not None and model[i] != impl:
+            ctx.disagree("write-path", dict(case, request=reqs[i]), model[i], impl)
+
+
+def _is_utf8(b):
+    try:
+        b.decode("utf-8")
+        return True
+    except UnicodeDecodeError:
+        return False
+
+
 def run(ctx):
     ctx.rule = ("public codecs: real RSA keys (1024/2048 generated; thorough 3072/4096) plus random public numbers with "
                 "moduli of 17..4096 bits incl. FF-patterns, ECDSA keys on all three curves, Ed25519 keys; each blob is also "
@@ -570,6 +712,7 @@ def run(ctx):
     codec_stream(ctx)
     identity_stream(ctx)
     private_stream(ctx)
+    write_stream(ctx)
 
 
 META = {
